@@ -7,7 +7,7 @@
 //! Sketch-level ops (public API only; items are the distinct integers seed*2^32 + i, i < n):
 //!   4 hll_sk   lg_k type n seed mode   mode 0 streamed, 1 serialize+deserialize, 2 union of two overlapping halves,
 //!                                      3 union of the same two halves read back from bytes
-//!              -> [est lb1..3 ub1..3 is_empty]
+//!              -> [est lb1..3 ub1..3 is_empty mode (coupon count | out_of_order)]
 //!   5 cpc_sk   lg_k n seed mode        mode 0 streamed, 1 serialize+deserialize, 2 union of two halves, 3 CpcWrapper of the image
 //!              -> [est lb1..3 ub1..3 is_empty num_coupons|-1]
 //!   6 theta_sk lg_k n seed p_bits(f32) mode   mode 0 update sketch, 1 compact, 2 compact ordered serialize+deserialize,
@@ -103,6 +103,9 @@ impl Family for Fam {
                 };
                 let mut ob = seven(sk.estimate(), |s| sk.lower_bound(s), |s| sk.upper_bound(s));
                 ob.push(sk.is_empty() as i128);
+                let st = sk.verif_state();
+                ob.push(st.mode as i128);
+                ob.push(if st.mode < 2 { st.len as i128 } else { st.out_of_order as i128 });
                 ob
             }
             5 => {
